@@ -24,7 +24,11 @@ ParameterEvent::ParameterEvent(Parameter* parameter) : parameter_(parameter) {}
 Parameter::Parameter(const std::string& name, double value, std::shared_ptr<ConstraintInterface> constraint, double precision) :
   name_(name), value_(0), precision_(0), constraint_(constraint), listeners_()
 {
-  setValue(value);
+  // setValue() compares with the current value first, so an initial value of 0
+  // would never be checked against the constraint: check it here.
+  if (constraint_ && !constraint_->isCorrect(value))
+    throw ConstraintException("Parameter::Parameter", this, value);
+  value_ = value;
   setPrecision(precision);
 }
 
